@@ -131,9 +131,9 @@ def vtable(k):
 N_VTABLES = 4
 
 
-def quantis_case(vi, beta0, beta1, ca, cb, accept_all, forced=None):
+def quantis_case(vi, beta0, beta1, ca, cb, accept_all, forced=None, M=14, variant=None):
     V0, V1 = vtable(vi)
-    B, M = 4, 14
+    B = 4
     intf0 = (float("-inf"), 0.5, 0.5)
     intf1 = (0.5, 0.5, B - 0.5)
 
@@ -141,8 +141,8 @@ def quantis_case(vi, beta0, beta1, ca, cb, accept_all, forced=None):
         sr.use(ch)
         if forced is not None:
             sr.force_random([forced])
-        eng0 = lat.BallisticEngine(vpot=V0, beta=beta0, name="q0-")
-        eng1 = lat.BallisticEngine(vpot=V1, beta=beta1, name="q1-")
+        eng0 = lat.BallisticEngine(vpot=V0, beta=beta0, name="q0-", **(variant or {}))
+        eng1 = lat.BallisticEngine(vpot=V1, beta=beta1, name="q1-", **(variant or {}))
         p0 = lat.ballistic_path(eng0, 1, -1, ca, intf0, M, tag="old0")
         p1 = lat.ballistic_path(eng1, 0, 1, cb, intf1, M, tag="old1")
         eng0.n_propagate = eng1.n_propagate = 0
@@ -202,6 +202,37 @@ def run_quantis(ctx):
                         if pe != 1:
                             ctx.violation("quantis:acceptance-equality",
                                           f"table {vi} betas {beta0},{beta1} colours {ca},{cb}: u == pacc = {ref} rejected", rp)
+    # tight length limits: the new paths may not fit; whatever is accepted must still be a member of its ensemble
+    B = 4
+    variants = ENGINE_VARIANTS + [dict(depth=(0, 0, 1), height=(2, 1, 2), swap01=(0, 1, 2)),
+                                  dict(depth=(0, 0, 0), height=(2, 2, 1), swap01=(1, 0, 2))]
+    for vi, variant in itertools.product(range(min(N_VTABLES, 2)), variants):
+        for ca, cb in itertools.product(range(3), repeat=2):
+            for M in (4, 5, 6, 7, 8):
+                try:
+                    pacc, recs = quantis_case(vi, 1.0, 1.0, ca, cb, True, M=M, variant=variant)
+                except Exception as e:  # noqa: BLE001
+                    if "maxlen" in str(e) or isinstance(e, (AssertionError, IndexError)):
+                        continue  # the old paths themselves do not fit under this limit
+                    raise
+                n += len(recs)
+                statuses = sorted({x["st"] for x in recs})
+                ctx.distinct(("quantis-tight", vi, str(variant), ca, cb, M, tuple(statuses)))
+                rp = dict(kind="quantis", vi=vi, b0=1.0, b1=1.0, ca=ca, cb=cb, aa=True)
+                for r in recs:
+                    if any(len(o) > M for o in r["olds"]):
+                        break
+                    if not r["acc"]:
+                        continue
+                    n0, n1 = r["new"]
+                    ok0 = len(n0) >= 3 and len(n0) <= M and n0[0] >= 1 and n0[-1] >= 1 and all(x <= 0 for x in n0[1:-1])
+                    ok1 = (len(n1) >= 3 and len(n1) <= M and n1[0] <= 0 and all(1 <= x <= B - 1 for x in n1[1:-1])
+                           and (n1[-1] <= 0 or n1[-1] >= B))
+                    if not (ok0 and ok1):
+                        ctx.violation("quantis:accepted-path-not-a-member",
+                                      f"table {vi} colours {ca},{cb} maxlength {M}: accepted new paths {n0} / {n1} (status {r['st']}) "
+                                      f"are not both complete paths of their ensembles within the length limit", rp)
+                        return n
     return n
 
 
